@@ -18,6 +18,8 @@ RULE = ('random function bodies (ordinary, you and defeat flavours; empty and in
         'ways out are chosen among break/return/terminal call/defeat, if/else with returning and non-returning arms, try/undo, try/stop, '
         'preempt with return/break/continue, defeat calls, all_is_win/all_is_broken, exits followed by unreachable statements; each accepted '
         'program is run on inputs 0..5 at word sizes 2 and 3, checked and unchecked, followed in memory by a function that prints <NEXT>; '
+        'plus the enumerated grid of 392 loop-exit programs (5 loop kinds x 14 body shapes x what follows x return type) and 56 return-path shapes '
+        '(open ones, incl. bare `return;`, must be rejected; closed ones accepted and run); '
         'non-trivial = the body nests >= 2 exit constructs; distinct by hash of (source, input)')
 ASSUMPTIONS = common.ISA_ASSUMPTIONS + ['accept/reject is compared one-directionally: rejecting a function that cannot complete is conservative, not a violation']
 REQUIRED_HIDC_FUNCTIONS = ['ast/blocks:CodeBlock.evaluate', 'ast/blocks:LoopBlock.exit_modes', 'ast/blocks:TryBlock.exit_modes']     # M-COV: deciding code never entered => inconclusive
@@ -30,7 +32,7 @@ def plan(tier, seed):
     n, per = (16, 45) if tier == 'quick' else (64, 160)
     parts = 4 if tier == 'quick' else 8
     return [{'kind': 'gen', 'seed': s, 'count': per} for s in common.shard_seeds(seed, n)] + \
-           [{'kind': 'grid', 'part': i, 'parts': parts, 'tier': tier} for i in range(parts)]
+           [{'kind': 'grid', 'part': i, 'parts': parts, 'tier': tier} for i in range(parts)] + [{'kind': 'reject'}]
 
 
 def nest_exits(stmts, depth=0):
@@ -122,6 +124,56 @@ def check_one(res, prog, ret, tag, words=(2, 3)):
 
 def run_shard(spec):
     res = runner.new_result()
+    if spec['kind'] == 'reject':
+        # value-returning functions that can complete without a value: the end of the body is reachable (25 shapes), or a
+        # bare `return;` stands somewhere in it.  Each must be rejected; the closed counterparts must be accepted and,
+        # when run under M-FALL, never leave their function
+        from ..gen import typing as T
+        CompilerError, _ = env.compiler_error_types()
+        bare = [('bare_return_' + k, T.program('\n    write(rv(iv));', v + '\n'), False) for k, v in {
+            'top': 'int rv(int q) { return; }',
+            'in_if': 'int rv(int q) { if (q > 0) { return; } return 1; }',
+            'in_else': 'int rv(int q) { if (q > 0) { return 2; } else { return; } }',
+            'in_loop': 'int rv(int q) { while (q > 0) { q -= 1; if (q == 3) { return; } } return q; }',
+            'in_for': 'int rv(int q) { for (int i = 0; i < q; i += 1) { return; } return 0; }',
+            'in_block': 'int rv(int q) { { return; } }',
+            'after_value_return': 'int rv(int q) { if (q > 0) { return 1; } return; }',
+            'byte_function': 'byte rvb(int q) { return; }\nint rv(int q) { return rvb(q); }',
+            'bool_function': 'bool rvf(int q) { if (q > 1) { return; } return true; }\nint rv(int q) { return rvf(q) is int; }',
+            'string_function': 'string rvs(int q) { return; }\nint rv(int q) { return rvs(q).length; }',
+        }.items()]
+        bare += [('bare_return_in_you_try', T.program('\n    write(@rv(iv));', 'int !dz(int k) { !truth_is_defeat(k == 1); return k; }\nint @rv(int q) { try { write(!dz(q)); return; } stop { return 0; } }\n'), False),
+                 ('bare_return_in_handler', T.program('\n    write(@rv(iv));', 'int !dz(int k) { !truth_is_defeat(k == 1); return k; }\nint @rv(int q) { try { return !dz(q); } undo { return; } }\n'), False),
+                 ('bare_return_in_preempt', T.program('\n    try { write(!rv(iv)); } undo { }', 'int !rv(int q) { preempt { return; } return q; }\n'), False)]
+        for tag, src, ok in list(T.return_cases()) + bare:
+            res['evaluations'] += 1
+            case = diff.case_dict(src, [], 2, 500, gen=tag)
+            try:
+                env.compile_src(src, word=2, stack=500)
+                accepted = True
+            except CompilerError as e:
+                accepted = False
+                why = str(e)
+            except Exception as e:  # noqa
+                runner.fail(res, 'M-EXC', f'{tag}: {type(e).__name__}: {e}', case)
+                continue
+            if accepted and not ok:
+                runner.fail(res, 'M-ACCEPT', f'{tag}: accepted although the function can complete without returning a value', case)
+            elif not accepted and ok:
+                runner.fail(res, 'M-DIFF', f'{tag}: every path returns, yet the program is rejected: {why}', case)
+            elif accepted:
+                run = diff.compile_and_run(src, [], word=2, stack=diff.GENEROUS_STACK, max_steps=MAX_STEPS)
+                fall = [r for r in run.outcome.reports if r[1] == 'fall'] if run.kind == 'ok' else []
+                if run.kind != 'ok' or fall or run.outcome.klass in ('HALT', 'TRAP'):
+                    runner.fail(res, 'M-FALL', f'{tag}: {fall[0][2] if fall else run.kind if run.kind != "ok" else run.outcome.klass}', case)
+                else:
+                    runner.count(res, 'closed_shapes_run_clean')
+                    res['nontrivial'].append(runner.case_id('shape', src))
+            else:
+                runner.count(res, 'open_shapes_rejected')
+                res['nontrivial'].append(runner.case_id('shape', src))
+        res['exhaustive'] = True
+        return res
     if spec['kind'] == 'grid':
         from ..gen import exits
         for k, (tag, prog, ret) in enumerate(exits.loop_exit_programs()):
